@@ -321,6 +321,8 @@ def main(tier, seed):
     if bad or logs:
         rep.violation('corr:uneval', 'correspondence corr.C17 could not be evaluated for %d cases' % bad,
                       dict(kind='correspondence', name='corr.C17', log=logs[:3]), no_input=True)
+    import r9
+    r9.c17_lu_factor_layouts(rep, algopy, rng, tier)
     return rep.finish()
 
 
